@@ -75,9 +75,14 @@ func (k Keeper) DeleteClosingTaskIDs(ctx sdk.Context, closingBlock int64) {
 // CreateTask creates a new task.
 func (k Keeper) CreateTask(ctx sdk.Context, contract string, function string, bounty sdk.Coins,
 	description string, expiration time.Time, creator sdk.AccAddress, waitingBlocks int64) error {
+	if waitingBlocks < 0 {
+		// a task closing in the past would never be aggregated
+		return types.ErrInvalidTaskParams
+	}
 	task, err := k.GetTask(ctx, contract, function)
 	if err == nil {
-		if task.ClosingBlock > ctx.BlockHeight() {
+		// a task is closed by the end-blocker of its closing block: until then it cannot be replaced
+		if task.ClosingBlock >= ctx.BlockHeight() {
 			return types.ErrTaskNotClosed
 		}
 		if err := k.DeleteTask(ctx, task); err != nil {
